@@ -59,6 +59,17 @@ func RunCLIArgs(w *simfs.World, flagArgs []string, stdin string) (CLIResult, err
 		os.Chtimes(full, mt, mt)
 		before[p] = st{mt, f.Data}
 	}
+	for link, target := range w.Symlinks {
+		full := filepath.Join(root, filepath.FromSlash(link))
+		os.MkdirAll(filepath.Dir(full), 0o755)
+		rel, err := filepath.Rel(filepath.Dir(full), filepath.Join(root, filepath.FromSlash(target)))
+		if err != nil {
+			return CLIResult{}, err
+		}
+		if err := os.Symlink(rel, full); err != nil {
+			return CLIResult{}, err
+		}
+	}
 	args := append([]string{"sign"}, flagArgs...)
 	args = append(args, root)
 	cmd := exec.Command(GopkiBin(), args...)
@@ -86,6 +97,9 @@ func RunCLIArgs(w *simfs.World, flagArgs []string, stdin string) (CLIResult, err
 		}
 		rel, _ := filepath.Rel(root, path)
 		rel = filepath.ToSlash(rel)
+		if _, isLink := w.Symlinks[rel]; isLink && info.Mode()&os.ModeSymlink != 0 {
+			return nil // still the link we made
+		}
 		seen[rel] = true
 		data, _ := os.ReadFile(path)
 		b, ok := before[rel]
